@@ -254,8 +254,14 @@ pub fn rand_raw_lib(rng: &mut Rng, cfg: &RawCfg) -> GenRaw {
                 let (purpose, _) = rng.pick(&purps).clone();
                 let (mut inner, _) = rand_shape(rng, cfg, (k as i64 * 1000, (i as i64 % 3) * 1000));
                 if cfg.odd_views && rng.chance(1, 6) {
-                    if let Shape::Path(p) = &mut inner {
-                        p.width = 0;
+                    match &mut inner {
+                        Shape::Path(p) => p.width = 0,
+                        // a ring written out explicitly: the last vertex repeats the first
+                        Shape::Polygon(p) => {
+                            let first = p.points[0].clone();
+                            p.points.push(first);
+                        }
+                        _ => {}
                     }
                 }
                 let net = if cfg.nets && rng.chance(1, 2) { Some(format!("{}{}_{}", rng.pick(&["net", "VDD", "Clk", "a"]), i, k)) } else { None };
